@@ -4,11 +4,67 @@ package main
 
 import (
 	"fmt"
+	"strings"
 
+	rast "github.com/gardenbed/emerge/internal/regex/parser/ast"
+	"github.com/gardenbed/emerge/internal/regex/parser/nfa"
 	"github.com/gardenbed/emerge/verif/ev"
+	"github.com/gardenbed/emerge/verif/ref/dfaops"
 	"github.com/gardenbed/emerge/verif/ref/regexref"
 	"github.com/gardenbed/emerge/verif/rx"
 )
+
+// twoRoutes compares the two constructions with each other (no reference): for patterns whose meaning the documentation
+// leaves open - anchors inside groups and under quantifiers - the property still demands that both routes accept the same
+// language. Both must also agree on whether the pattern is accepted at all.
+func twoRoutes(r *ev.Run, p string) {
+	r.Add("patterns", 1)
+	r.Add("patterns_two_routes", 1)
+	in := map[string]string{"Text": p, "TwoRoutes": "yes"}
+	var ms []dfaops.Machine
+	var errN, errA error
+	pan := func(f func()) (p any) {
+		defer func() { p = recover() }()
+		f()
+		return nil
+	}
+	if x := pan(func() {
+		n, err := nfa.Parse(p)
+		errN = err
+		if err == nil {
+			ms = append(ms, dfaops.FromNFA(n))
+		}
+	}); x != nil {
+		r.Add("panics_left_to_C14", 1)
+		return
+	}
+	if x := pan(func() {
+		a, err := rast.Parse(p)
+		errA = err
+		if err == nil {
+			ms = append(ms, dfaops.FromDFA(a.ToDFA()))
+		}
+	}); x != nil {
+		r.Add("panics_left_to_C14", 1)
+		return
+	}
+	if (errN == nil) != (errA == nil) {
+		r.Report("", fmt.Sprintf("pattern %q: nfa.Parse says %v, ast.Parse says %v", p, errN, errA), in)
+		return
+	}
+	if errN != nil {
+		return
+	}
+	res := dfaops.Compare(ms, []rune("abc\n"), 0)
+	r.Add("states", res.States)
+	r.Add("transitions", res.Transitions)
+	if res.States > 1 {
+		r.Distinct(p)
+	}
+	if !res.Equal {
+		r.Report("", fmt.Sprintf("pattern %q: the two routes disagree on %s (NFA route accepts=%v, direct route accepts=%v)", p, dfaops.Quote(res.Witness), res.Verdicts[0], res.Verdicts[1]), in)
+	}
+}
 
 func main() {
 	r := ev.Start("C10", "model_checking")
@@ -17,6 +73,10 @@ func main() {
 		var in struct{ Text string }
 		if err := r.LoadReplay(&in); err != nil {
 			ev.Fatal("%v", err)
+		}
+		if strings.ContainsAny(in.Text, "$^") {
+			twoRoutes(r, in.Text)
+			r.Finish()
 		}
 		t, err := regexref.Parse(in.Text)
 		if err != nil {
@@ -33,7 +93,7 @@ func main() {
 		r.Finish()
 	}
 	if r.Fork(16) {
-		r.Set("rule", "the C02 pattern space plus closed families: every concatenation of <=4 operands from {a, a?, a*, (a|b?), (a?b?), b}, every {n,m} with n<=m<=3 and {n,} n<=3 over nullable and non-nullable bodies; non-trivial = product exploration visited > 1 state; distinct by pattern text")
+		r.Set("rule", "the C02 pattern space plus closed families: every concatenation of <=4 operands from {a, a?, a*, (a|b?), (a?b?), b}, every {n,m} with n<=m<=3 and {n,} n<=3 over nullable and non-nullable bodies; bracket groups judged by all their derivations, keyword alternations; and patterns with anchors inside groups and under quantifiers, for which the two routes are compared with each other; non-trivial = product exploration visited > 1 state; distinct by pattern text")
 		r.Set("evaluations", r.Get("patterns"))
 		r.Set("traces_validated_against_impl", r.Get("patterns"))
 		r.Finish()
@@ -129,8 +189,37 @@ func main() {
 	}
 	rx.BracketSpace(nb, func(a *regexref.Atom) { check(rx.AtomExpr(a), "bracket_contents") })
 	r.Set("bound_bracket_tokens", nb)
+	rx.BracketSpaceU(nb, func(a *regexref.Atom) { check(rx.AtomExpr(a), "bracket_contents_beyond_ascii") })
+	kw := 5
+	if !r.Quick() {
+		kw = 7
+	}
+	rx.KeywordSpace(kw, check)
 	if !r.Quick() {
 		rx.DeepSpace(check)
+	}
+	// anchors inside groups and under quantifiers: the two routes against each other
+	pieces := []string{"a", "b", "$", "^", "(a|$)", "($|a)", "(^|b)", "(a|$|b)", "(a$|b)"}
+	quants := []string{"", "+", "*", "?", "{2}", "{1,2}", "{2,}"}
+	for _, p1 := range pieces {
+		for _, q1 := range quants {
+			if (p1 == "$" || p1 == "^") && q1 != "" {
+				continue
+			}
+			for _, p2 := range append([]string{""}, pieces...) {
+				for _, q2 := range []string{"", "+", "{2}"} {
+					if (p2 == "" || p2 == "$" || p2 == "^") && q2 != "" {
+						continue
+					}
+					p := p1 + q1 + p2 + q2
+					if !strings.ContainsAny(p, "$^") || !r.Mine(p) {
+						continue
+					}
+					twoRoutes(r, p)
+					twoRoutes(r, "("+p+")+c")
+				}
+			}
+		}
 	}
 	r.Assume("same reference and alphabet as C02; ast.ToDFA state numbering is ignored (language comparison only)")
 	r.Finish()
